@@ -3,12 +3,14 @@
 package hlib
 
 import (
+	"bytes"
 	"crypto/sha256"
 	"encoding/hex"
 	"encoding/json"
 	"flag"
 	"fmt"
 	"os"
+	"os/exec"
 	"path/filepath"
 	"sort"
 	"strings"
@@ -62,25 +64,25 @@ func (c *Config) Str(key, def string) string {
 }
 
 type Violation struct {
-	Property  string      `json:"property"`
-	Signature string      `json:"signature"`
-	Detail    string      `json:"detail"`
-	Seed      uint64      `json:"seed"`
-	Run       int         `json:"run"`
-	Params    map[string]string `json:"params,omitempty"`
-	Decisions []uint32    `json:"decisions"`
-	OrigLen   int         `json:"orig_decisions"`
-	Scenario  interface{} `json:"scenario"`
-	Trace     []string    `json:"trace"`
-	ShrinkRuns int        `json:"shrink_runs"`
-	Count     int         `json:"count"` // how many runs hit this signature
-	symptom   string
+	Property   string            `json:"property"`
+	Signature  string            `json:"signature"`
+	Detail     string            `json:"detail"`
+	Seed       uint64            `json:"seed"`
+	Run        int               `json:"run"`
+	Params     map[string]string `json:"params,omitempty"`
+	Decisions  []uint32          `json:"decisions"`
+	OrigLen    int               `json:"orig_decisions"`
+	Scenario   interface{}       `json:"scenario"`
+	Trace      []string          `json:"trace"`
+	ShrinkRuns int               `json:"shrink_runs"`
+	Count      int               `json:"count"` // how many runs hit this signature
+	symptom    string
 }
 
 type Result struct {
-	Property   string                 `json:"property"`
-	Tier       string                 `json:"tier"`
-	Seed       uint64                 `json:"seed"`
+	Property   string `json:"property"`
+	Tier       string `json:"tier"`
+	Seed       uint64 `json:"seed"`
 	From, To   int
 	Runs       int                    `json:"runs"`
 	Evals      int                    `json:"evals"`
@@ -107,6 +109,8 @@ func Main(property string, args []string, fn RunFn) int {
 		return 2
 	}
 	switch args[0] {
+	case "cold":
+		return coldMain(property, fn)
 	case "run":
 		fs := flag.NewFlagSet("run", flag.ExitOnError)
 		seed := fs.Uint64("seed", 1, "base seed")
@@ -439,6 +443,69 @@ func equal(a, b []uint32) bool {
 		}
 	}
 	return true
+}
+
+// ColdRequest / RunCold: execute the very same run (same tape from its beginning, same
+// parameters) in a freshly exec'ed copy of this binary, so that every process-wide cache and
+// lazily initialised structure is cold. The child is `h <prop> cold` with the request on stdin.
+type ColdRequest struct {
+	Property string            `json:"property"`
+	Tape     zsim.TapeSpec     `json:"tape"`
+	Params   map[string]string `json:"params"`
+	RunIndex int               `json:"run_index"`
+	Seed     uint64            `json:"seed"`
+}
+
+type ColdReply struct {
+	Sig      string          `json:"sig"`
+	Symptom  string          `json:"symptom"`
+	Detail   string          `json:"detail"`
+	Scenario json.RawMessage `json:"scenario"`
+	Trace    []string        `json:"trace"`
+	Keys     []string        `json:"keys"`
+	Note     map[string]int  `json:"note"`
+	Probes   map[string]int  `json:"probes"`
+	Faults   map[string]int  `json:"faults"`
+	Decisions []uint32       `json:"decisions"`
+}
+
+func RunCold(t *zsim.Tape, cfg *Config) (*Outcome, error) {
+	params := map[string]string{}
+	for k, v := range cfg.Params {
+		params[k] = v
+	}
+	params["coldchild"] = "1"
+	req := ColdRequest{Property: cfg.Property, Tape: t.Spec(), Params: params, RunIndex: cfg.RunIndex, Seed: cfg.Seed}
+	b, _ := json.Marshal(req)
+	cmd := exec.Command(os.Args[0], cfg.Property, "cold")
+	cmd.Stdin = bytes.NewReader(b)
+	var out, errb bytes.Buffer
+	cmd.Stdout, cmd.Stderr = &out, &errb
+	if err := cmd.Run(); err != nil {
+		return nil, fmt.Errorf("cold child failed: %v: %s", err, errb.String())
+	}
+	var rep ColdReply
+	if err := json.Unmarshal(out.Bytes(), &rep); err != nil {
+		return nil, fmt.Errorf("cold child output: %v: %q", err, out.String())
+	}
+	var sc interface{}
+	json.Unmarshal(rep.Scenario, &sc)
+	t.Adopt(rep.Decisions)
+	return &Outcome{Sig: rep.Sig, Symptom: rep.Symptom, Detail: rep.Detail, Scenario: sc, Trace: rep.Trace, Keys: rep.Keys, Note: rep.Note, Probes: rep.Probes, Faults: rep.Faults}, nil
+}
+
+func coldMain(property string, fn RunFn) int {
+	var req ColdRequest
+	if err := json.NewDecoder(os.Stdin).Decode(&req); err != nil {
+		fmt.Fprintln(os.Stderr, err)
+		return 2
+	}
+	cfg := &Config{Property: property, Tier: "cold", Seed: req.Seed, Params: req.Params, RunIndex: req.RunIndex}
+	ct := req.Tape.Build()
+	o := fn(ct, cfg)
+	sb, _ := json.Marshal(o.Scenario)
+	json.NewEncoder(os.Stdout).Encode(ColdReply{Decisions: ct.Decisions(), Sig: o.Sig, Symptom: o.Symptom, Detail: o.Detail, Scenario: sb, Trace: tail(o.Trace, 120), Keys: o.Keys, Note: o.Note, Probes: o.Probes, Faults: o.Faults})
+	return 0
 }
 
 // WriteReplay stores the violation as a replay file and returns its path.
